@@ -54,6 +54,15 @@ Next ==
         /\ st' = [total |-> e.total, objects |-> e.objects, live0 |-> e.live, chunks0 |-> e.chunks, max1 |-> 0, max2 |-> 0]
         /\ UNCHANGED viol
      ELSE IF e.ev = "reset_after_crash" THEN UNCHANGED <<st, viol>>
+     ELSE IF e.ev = "roundtrip" THEN
+        \* a long stream through Encoder -> Decoder with both sides drained all along: what comes out is what went in
+        LET bad == When(e.ok # 1, {<<"C01", "long stream: the Decoder rejected the Encoder's output">>,
+                                   <<"C09", "long stream: drained Encoder output ++ finish is not a decodable whole">>})
+              \cup When(e.ok = 1 /\ (e.same_len # 1 \/ e.same_digest # 1),
+                        {<<"C01", "long stream: the decoded bytes differ from the bytes fed to the Encoder">>,
+                         <<"C09", "long stream: bytes were lost, duplicated, reordered or changed between drains and finish">>})
+        IN /\ viol' = CapViol(viol, {[run |-> e.run, line |-> l, prop |-> w[1], what |-> w[2]] : w \in bad})
+           /\ UNCHANGED st
      ELSE IF e.ev = "lengths" THEN
         \* C02 on a long stream: no stuff sequence anywhere in the drained output (incl. across drains) and
         \* |output| <= len + 1 + 2 * ceil(len / 64008), (lengths are logged as 20-bit limbs; these streams stay below 2^31 bytes)
